@@ -25,6 +25,10 @@ class Unmodelable(Exception):
     """Raised when a value (NaN, inf) has no exact model."""
 
 
+class Malformed(Exception):
+    """A polynomial array whose attributes cannot be read as a polynomial."""
+
+
 def coef(value):
     """Convert a Python/numpy number into an exact coefficient pair."""
     if isinstance(value, tuple) and len(value) == 2:
@@ -397,6 +401,15 @@ def abstract(poly):
     if not out.size:
         return out
     coefficients = [numpy.asarray(c) for c in coefficients]
+    for c in coefficients:
+        if c.dtype.names is not None or c.dtype.kind not in "biufc":
+            raise Malformed(f"coefficient dtype {str(c.dtype)[:60]}")
+        if tuple(c.shape) != shape:
+            raise Malformed(f"coefficient shape {c.shape} != array shape {shape}")
+    if len(exponents) != len(coefficients):
+        raise Malformed(f"{len(exponents)} exponent rows, {len(coefficients)} coefficients")
+    if any(len(row) != len(names) for row in exponents):
+        raise Malformed(f"exponent width != number of names {names}")
     for idx in numpy.ndindex(*shape):
         out[idx] = MP.from_rows(names, exponents, [c[idx] for c in coefficients])
     return out
